@@ -329,6 +329,15 @@ theorem C02_virtual_compose (ts : List Xform) (v : VView) (x y : Int) :
 
 example : (applyVirtAll [.transpose, .flipUD] ⟨0, 0, 1, 1, false, 4, 3⟩).pt 1 0 = (3, 1) := by decide
 
+/-- `position_iterator::operator=` copies the position and BOTH step components -/
+theorem C02_kernel_position_assign (a b c d px py sx sy : Int) : pos_assign a b c d px py sx sy = (a, b, c, d) := by
+  unfold pos_assign; kernel_eq
+
+/-- **assignment of virtual views / locators**: whatever the assigned-to view was before (default-constructed, differently stepped),
+    after `dst = src` it IS `src` (same record), so every coordinate map and identity above holds for chains built by assignment too -/
+theorem C02_virtual_assign (dst src : VView) : dst.assign src = src := by
+  unfold VView.assign; rw [C02_kernel_position_assign]
+
 /-! ### channel views of basic views: the generated `make` bodies -/
 
 /-- `__nth_channel_view_basic<View,false>::make` / `__kth_…<K,View,false>::make` (channels not adjacent): the new
@@ -462,6 +471,39 @@ theorem C02_deref_adaptor {α β γ : Type} (cc : β → γ) (d : DView α β) (
   refine ⟨?_, e, c2⟩
   simp only [DView.read, e, c1]
   rfl
+
+-- OPEN (not proven): FALSE on the current tree when the transformations after the adaptor are applied as the code applies them
+-- (`DView.applyCode`, adaptor outermost, a transformation that steps in x among `ts1`): known finding C02-deref-adaptor-step-drops-functor.
+--   theorem C02_deref_adaptor_code … ((colorConverted cc d).applyCode keeps dflt ts1).read m x y = cc (d.read m (phiAll ts1 d.v (x, y)) …)
+/-- the proven restriction: as the code applies them, the transformations after a colour-converting (or any other) dereference adaptor give
+    `cc (source pixel at the documented coordinates)` when none of them steps in x, or when the tree keeps the function object -/
+theorem C02_deref_adaptor_partial {α β γ : Type} (cc : β → γ) (dflt : α → γ) (d : DView α β) (ts1 : List Xform) (m : Int → α) (keeps : Bool)
+    (hk : keeps = true ∨ ts1.all (fun t => !t.stepsX) = true)
+    (hv : validAll ts1 d.v) (hw : 0 ≤ d.v.w) (hh : 0 ≤ d.v.h) (x y : Int)
+    (hr : ((colorConverted cc d).applyCode keeps dflt ts1).v.InRange x y) :
+    ((colorConverted cc d).applyCode keeps dflt ts1).read m x y = cc (d.read m (phiAll ts1 d.v (x, y)).1 (phiAll ts1 d.v (x, y)).2) := by
+  have hd : ((colorConverted cc d).applyCode keeps dflt ts1).deref = cc ∘ d.deref := by
+    simp only [DView.applyCode, colorConverted]
+    rcases hk with h | h
+    · simp [h]
+    · have : ts1.any Xform.stepsX = false := by
+        rw [List.any_eq_false]; intro t ht
+        have := List.all_eq_true.1 h t ht
+        simpa using this
+      simp [this]
+  have e : ((colorConverted cc d).applyCode keeps dflt ts1).v = applyMemAll ts1 d.v := rfl
+  rw [e] at hr
+  obtain ⟨c1, _⟩ := C02_compose ts1 d.v hv hw hh x y hr
+  simp only [DView.read, hd, e, c1]; rfl
+
+/-- **the finding, machine-checked** (holds vacuously once the tree keeps the function object): `flipped_left_right_view` of a view that
+    adds 7 on dereferencing reads the plain source value -- the default-constructed (identity) function object -- instead of value + 7 -/
+theorem C02_deref_adaptor_step_witness :
+    deref_step_keeps_functor = 0 →
+    ((colorConverted (fun p : Int => p + 7) ⟨⟨0, 1, 4, 4, 1⟩, fun a : Int => a⟩).applyCode (decide (deref_step_keeps_functor ≠ 0)) (fun a => a) [.flipLR]).read
+        (fun a => 10 * a) 0 0 = 30
+    ∧ (fun p : Int => p + 7) ((⟨⟨0, 1, 4, 4, 1⟩, fun a : Int => a⟩ : DView Int Int).read (fun a => 10 * a) 3 0) = 37 := by
+  unfold deref_step_keeps_functor; decide
 
 /-- `color_converted_view<DstP>` with `DstP` = the source's value type returns the source view: nothing is converted
     (`_color_converted_view_type<SrcView,CC,DstP,DstP>::make`), even for a user-supplied converter -/
